@@ -39,8 +39,8 @@ impl Accumulator {
 
     /// Accumulate a new value into the aggregate state.
     fn accumulate(&mut self, value: &DataType) -> RuntimeResult<()> {
-        // Skip NULL values for most aggregates except COUNT
-        if matches!(value, DataType::Null) && !matches!(self, Accumulator::Count { .. }) {
+        // Aggregates ignore NULL arguments; COUNT(*) does not come through here (see accumulate_star)
+        if matches!(value, DataType::Null) {
             return Ok(());
         }
 
@@ -91,6 +91,13 @@ impl Accumulator {
             }
         }
         Ok(())
+    }
+
+    /// Accumulate a row for an aggregate without a value argument: COUNT(*) counts every row.
+    fn accumulate_star(&mut self) {
+        if let Accumulator::Count { count } = self {
+            *count += 1;
+        }
     }
 
     /// Finalize the accumulator and return the aggregate result.
@@ -207,15 +214,12 @@ impl<Child: Executor> HashAggregate<Child> {
         // Accumulate the row
         let evaluator = ExpressionEvaluator::new(&row, &self.input_schema);
         for (i, agg_expr) in self.aggregates.iter().enumerate() {
-            let value = if agg_expr.arg.is_none() {
-                DataType::Null
-            } else if let Some(ref arg) = agg_expr.arg {
-                match arg {
-                    BoundExpression::Star => DataType::Null,
-                    other => evaluator.evaluate_as_single_value(other)?,
+            let value = match agg_expr.arg {
+                None | Some(BoundExpression::Star) => {
+                    bucket.accumulators[i].accumulate_star();
+                    continue;
                 }
-            } else {
-                DataType::Null
+                Some(ref other) => evaluator.evaluate_as_single_value(other)?,
             };
             bucket.accumulators[i].accumulate(&value)?;
         }
